@@ -59,7 +59,7 @@ func main() {
 					}
 				}()
 				c := core.NewCtx(id, *tier, p)
-				r.Run(c)
+				rules.RunAll(r, c, *verif)
 				if code := c.Finish(*verif, seed, r.Explanation, r.Trusted); code > worst {
 					worst = code
 				}
@@ -91,7 +91,7 @@ func main() {
 			return
 		}
 		c := core.NewCtx(*prop, *tier, p)
-		r.Run(c)
+		rules.RunAll(r, c, *verif)
 		code = c.Finish(*verif, seed, r.Explanation, r.Trusted)
 	}()
 	os.Exit(code)
